@@ -704,7 +704,13 @@ class TimestampConverter:
     @staticmethod
     def to_unix_millis(dt: datetime.datetime | None) -> int | None:
         """Convert datetime to Unix timestamp in milliseconds."""
-        return int(dt.timestamp() * 1000) if dt else None
+        if not dt:
+            return None
+        # Integer arithmetic: int(dt.timestamp() * 1000) loses a millisecond to float rounding
+        # for some exact-millisecond instants (e.g. ...582.487 -> ...582486).
+        aware = dt if dt.tzinfo is not None else dt.astimezone(datetime.UTC)
+        epoch = datetime.datetime(1970, 1, 1, tzinfo=datetime.UTC)
+        return (aware - epoch) // datetime.timedelta(milliseconds=1)
 
     @staticmethod
     def from_unix_millis(ms: int | None) -> datetime.datetime | None:
